@@ -59,3 +59,11 @@ Theorem C13_restore_voters_roundtrip : forall mi mb li cs c p,
   forall x, In x (c_voters c) <-> In x (cs_voters cs) /\ x <> 0.
 Proof. exact restore_voters_fresh. Qed.
 Print Assumptions C13_restore_voters_roundtrip.
+
+(* Restore, incoming-voter half of the round-trip for a joint ConfState (same side condition). *)
+Theorem C13_restore_voters_joint_roundtrip : forall mi mb li cs c p,
+  cc_restore (make_tracker mi mb) li cs = inl (c, p) -> cs_voters_outgoing cs <> [] ->
+  (forall x, In x (cs_voters cs) -> ~ In x (cs_learners cs) /\ ~ In x (cs_learners_next cs)) ->
+  forall x, In x (c_voters c) <-> In x (cs_voters cs) /\ x <> 0.
+Proof. exact restore_voters_joint_fresh. Qed.
+Print Assumptions C13_restore_voters_joint_roundtrip.
